@@ -58,7 +58,7 @@ func ParseDirectives(firstLabel string) Directives {
 			return 0, false
 		}
 		switch p {
-		case "ok", "nx", "nodata", "empty", "tc", "tcs", "silent", "garbage", "close", "rst", "half":
+		case "ok", "nx", "nodata", "empty", "tc", "tcs", "silent", "garbage", "close", "rst", "half", "redir":
 			d.Kind = p
 			continue
 		case "fat":
